@@ -98,7 +98,7 @@ Proof.
       assert (Hi : Z.to_nat z < length (aps (abs s))) by (unfold valid_idx in E; lia).
       split; [split; [exact W|rewrite HA; apply aremove_nact; auto]|].
       split; [exact O|]. split; [reflexivity|]. rewrite HA.
-      unfold removed_result, aspec; destruct (negb (length (aps (abs s)) =? 1) && negb keep && atree (abs s)); auto.
+      unfold removed_result, aspec; destruct (negb keep && atree (abs s)); auto.
     + destruct H as [-> ->]. repeat split; auto; apply Hwf.
   - unfold remove_hash in H. destruct (by_hash s h) as [s1 r1] eqn:EB.
     apply by_hash_spec in EB; auto. destruct EB as (W1 & O1 & A1 & R1).
@@ -116,7 +116,7 @@ Proof.
         split; [lia|]. split.
         { right. exists i. rewrite HL. repeat split; auto. cbn. now rewrite nth_firstn_lt by lia. }
         { rewrite HA. unfold removed_result, aspec.
-          destruct (negb (length (aps (abs s)) =? 1) && negb keep && atree (abs s)); auto. }
+          destruct (negb keep && atree (abs s)); auto. }
     + inversion H; subst; clear H. split; [split; [exact W1|rewrite A1; auto]|].
       split; [exact O1|]. split; [|exact A1].
       left. split; auto. left. rewrite has_hash_nth by auto. intros [i [Hi Hh]]. apply (R1 i Hi Hh).
